@@ -10,19 +10,14 @@ NaN = float("nan")
 
 META = {
     "level": "exploration",
-    "rule": ("cube = 0-4 row-aligned index dimensions (1-3 axes each, built with the constructor only), N in "
-             "{0,1,2,3,5,8,17,40,60,120,300}, extents 1-5 (+ sparse cubes with extents 255..65536), common most "
-             "frequent / any / absent inside / = extent, shape explicit (exact or padded) or inferred, report format NaN "
-             "or (sentinel, False). Non-trivial: >=2 dimensions and >=1 reconstructed (common-coordinate) cell with a "
-             "non-zero count; distinct by content hash"),
+    "rule": ("cube = 0-4 row-aligned index dimensions (1-3 axes each, built with the constructor only), N in {0,1,2,3,5,8,17,40,60,120,300}, extents 1-5 (+ sparse cubes with extents 255..65536), common most frequent / any / absent inside / = extent, shape explicit (exact or padded) or inferred, report format NaN or (sentinel, False); sparse cubes of 2^28..2^32 rows (self-engaged pool), 2^24+k dense rows, 6-10 dimensions, lopsided row lists, one index object as two dimensions, in-place edits then recount, twin cases judged straight after one another. Non-trivial: >=2 dimensions and >=1 reconstructed (common-coordinate) cell with a non-zero count; distinct by content hash"),
     "require": {t: ["class:ndims=0", "class:ndims=3", "class:ndims=4", "class:axes=3", "class:common=outside",
                     "class:shape=inferred", "class:shape=explicit", "class:n=0", "class:big_extent",
                     "cells:common_coords=0", "cells:common_coords=1", "cells:common_coords=2", "cells:common_coords>=3",
                     "cells:reconstructed_nonzero", "class:edited_in_place_then_recounted", "class:n>2^24", "class:sparse_rows>=2^28",
                     "class:pool_engaged_by_the_cube_itself", "class:frequent_category_stored_explicitly"]
                 for t in ("quick", "thorough")},
-    "assumptions": ["category codes are 0..extent-1 (what a cube requires); an explicit shape covers every value and "
-                    "the common value"],
+    "assumptions": ["category codes are 0..extent-1 (what a cube requires); an explicit shape covers every value and the common value"],
 }
 
 
